@@ -24,12 +24,13 @@ VARIABLES tv, seen,                       \* contract
           cin, cs, cv,                    \* cache entry: present, state, version
           op,                             \* call in flight [k, st, rs, rv, late]
           upd, dontupd, uafter,           \* Update in progress; c in dontupdate; an op was in flight when it began
+          taint,                          \* a late answer has been applied and no clean poll since
           nops, nenv, nupd, last, hist
 
 C == INSTANCE QueueCacheContract
 qcvars == <<tv, seen>>
-vars == <<tv, seen, ts, cin, cs, cv, op, upd, dontupd, uafter, nops, nenv, nupd, last, hist>>
-view == <<tv, seen, ts, cin, cs, cv, op, upd, dontupd, uafter, nops, nenv, nupd>>
+vars == <<tv, seen, ts, cin, cs, cv, op, upd, dontupd, uafter, taint, nops, nenv, nupd, last, hist>>
+view == <<tv, seen, ts, cin, cs, cv, op, upd, dontupd, uafter, taint, nops, nenv, nupd>>
 
 NoOp == [k |-> "none", st |-> "none", rs |-> "", rv |-> 0, late |-> FALSE]
 NoLast == [e |-> "none", in |-> FALSE, v |-> 0, fresh |-> FALSE, late |-> FALSE]
@@ -37,7 +38,7 @@ H(a, x) == hist' = IF Len(hist) < MaxHist THEN Append(hist, [a |-> a, x |-> x]) 
 
 Init == /\ C!QCInit /\ ts = "Queued"
         /\ cin = FALSE /\ cs = "" /\ cv = 0
-        /\ op = NoOp /\ upd = FALSE /\ dontupd = FALSE /\ uafter = FALSE
+        /\ op = NoOp /\ upd = FALSE /\ dontupd = FALSE /\ uafter = FALSE /\ taint = FALSE
         /\ nops = 0 /\ nenv = 0 /\ nupd = 0 /\ last = NoLast /\ hist = <<>>
 
 Obs(in, v, fresh, late) == last' = [e |-> "cache", in |-> in, v |-> v, fresh |-> fresh, late |-> late]
@@ -50,7 +51,7 @@ Env(a, from, to) ==
     /\ nenv < MaxEnv /\ ts \in from
     /\ SetTruth(to) /\ nenv' = nenv + 1
     /\ NoObs("truth") /\ H(a, "")
-    /\ UNCHANGED <<cin, cs, cv, op, upd, dontupd, uafter, nops, nupd>>
+    /\ UNCHANGED <<cin, cs, cv, op, upd, dontupd, uafter, taint, nops, nupd>>
 UserCancel == Env("usercancel", {"Queued", "Locked", "Running"}, "Cancelled")
 Running == Env("running", {"Locked"}, "Running")
 Complete == Env("complete", {"Running"}, "Complete")
@@ -61,7 +62,7 @@ Call(k) ==
     /\ op' = [NoOp EXCEPT !.k = k, !.st = "sent"]
     /\ nops' = nops + 1
     /\ NoObs("none") /\ H("call", k)
-    /\ UNCHANGED <<qcvars, ts, cin, cs, cv, upd, dontupd, uafter, nenv, nupd>>
+    /\ UNCHANGED <<qcvars, ts, cin, cs, cv, upd, dontupd, uafter, taint, nenv, nupd>>
 
 \* the API server performs it
 Commit ==
@@ -76,7 +77,7 @@ Commit ==
           ELSE /\ UNCHANGED <<qcvars, ts>> /\ NoObs("none")
                /\ op' = [op EXCEPT !.st = "failed"]
     /\ H("commit", op.k)
-    /\ UNCHANGED <<cin, cs, cv, upd, dontupd, uafter, nops, nenv, nupd>>
+    /\ UNCHANGED <<cin, cs, cv, upd, dontupd, uafter, taint, nops, nenv, nupd>>
 
 \* the answer arrives: updateWithResp
 Deliver ==
@@ -88,6 +89,7 @@ Deliver ==
             /\ Obs(cin, IF cin THEN op.rv ELSE 0, FALSE, op.late)
        ELSE /\ UNCHANGED <<qcvars, cs, cv, dontupd>> /\ NoObs("none")
     /\ op' = NoOp
+    /\ taint' = (taint \/ (op.st = "committed" /\ op.late /\ cin))
     /\ H("deliver", op.k)
     /\ UNCHANGED <<ts, cin, upd, uafter, nops, nenv, nupd>>
 
@@ -96,7 +98,7 @@ UpdStart ==
     /\ upd' = TRUE /\ dontupd' = FALSE /\ uafter' = (op.st # "none")
     /\ nupd' = nupd + 1
     /\ NoObs("none") /\ H("updstart", "")
-    /\ UNCHANGED <<qcvars, ts, cin, cs, cv, op, nops, nenv>>
+    /\ UNCHANGED <<qcvars, ts, cin, cs, cv, op, taint, nops, nenv>>
 
 \* the poll sees the server's state now; applied unless the entry is in dontupdate
 UpdEnd ==
@@ -109,6 +111,7 @@ UpdEnd ==
     /\ op' = IF op.st = "committed" /\ ~dontupd THEN [op EXCEPT !.late = TRUE] ELSE op
     /\ C!CacheObsEff(cin', cv')
     /\ Obs(cin', cv', ~dontupd, FALSE)
+    /\ taint' = (taint /\ dontupd)
     /\ H("updend", "")
     /\ UNCHANGED <<ts, nops, nenv, nupd>>
 
@@ -117,7 +120,7 @@ Forget ==
     /\ cin /\ cs \in {"Complete", "Cancelled"}
     /\ cin' = FALSE /\ cs' = "" /\ cv' = 0
     /\ NoObs("none") /\ H("forget", "")
-    /\ UNCHANGED <<qcvars, ts, op, upd, dontupd, uafter, nops, nenv, nupd>>
+    /\ UNCHANGED <<qcvars, ts, op, upd, dontupd, uafter, taint, nops, nenv, nupd>>
 
 Next == UserCancel \/ Running \/ Complete \/ (\E k \in {"lock", "unlock", "cancel"} : Call(k)) \/ Commit \/ Deliver
         \/ UpdStart \/ UpdEnd \/ Forget
@@ -130,7 +133,7 @@ ContractStep == CASE last'.e = "truth" -> C!Truth
 \* expected to FAIL: the late answer (known finding KF-C14-2)
 RefinesAll == [][ContractStep]_vars
 \* holds: everything outside that class
-Refines == [][(last'.e = "cache" /\ last'.late) \/ ContractStep]_vars
+Refines == [][taint \/ taint' \/ ContractStep]_vars
 
 Emit == (Len(hist) = MaxHist) =>
           Serialize(<<[id |-> 0, steps |-> hist]>>, IOEnv.VERIF_OUT,
